@@ -18,11 +18,14 @@ pub struct Call {
     pub lang: String,
     pub text: String,
     pub th_bits: u64,
+    /// the language the text was generated for (the call may be made in another one)
+    #[serde(default)]
+    pub native: String,
 }
 pub type History = Vec<Call>;
 pub struct C14;
 
-pub const NFUNCS: u8 = 10;
+pub const NFUNCS: u8 = 11;
 /// one public call, result rendered as a string
 pub fn perform(lg: &Language, c: &Call) -> String {
     // a panic is C03's business; here it is just another (comparable) outcome
@@ -59,7 +62,45 @@ fn perform_inner(lg: &Language, c: &Call) -> String {
             let k = (c.f % NFUNCS - 7) as usize;
             format!("{:?}", occs(find_numbers_iter(t.iter(), lg, th).take(k).collect()))
         }
+        // a user-supplied interpreter (wrapping the built-in one) that panics on a marker word, caught by the caller:
+        // a panic in user code must not change what later calls return
+        10 => {
+            let p = Panicky(lg);
+            let t = format!("{} xqpanic", c.text);
+            match std::panic::catch_unwind(std::panic::AssertUnwindSafe(|| replace_numbers_in_text(&t, &p, th))) {
+                Ok(s) => s,
+                Err(_) => "<user interpreter panicked>".to_string(),
+            }
+        }
         _ => format!("{:?}", get_interpreter_for(&c.lang).map(|l| replace_numbers_in_text(&c.text, &l, th))),
+    }
+}
+/// a third-party interpreter: delegates to a built-in one, panics on the word `xqpanic`
+pub struct Panicky<'a>(pub &'a Language);
+impl LangInterpreter for Panicky<'_> {
+    fn apply(&self, w: &str, b: &mut text2num::digit_string::DigitString) -> Result<(), text2num::error::Error> {
+        if w == "xqpanic" {
+            panic!("user interpreter failure");
+        }
+        self.0.apply(w, b)
+    }
+    fn apply_decimal(&self, w: &str, b: &mut text2num::digit_string::DigitString) -> Result<(), text2num::error::Error> {
+        self.0.apply_decimal(w, b)
+    }
+    fn get_morph_marker(&self, w: &str) -> text2num::lang::MorphologicalMarker {
+        self.0.get_morph_marker(w)
+    }
+    fn is_decimal_sep(&self, w: &str) -> bool {
+        self.0.is_decimal_sep(w)
+    }
+    fn format_and_value(&self, b: &text2num::digit_string::DigitString) -> (String, f64) {
+        self.0.format_and_value(b)
+    }
+    fn format_decimal_and_value(&self, i: &text2num::digit_string::DigitString, d: &text2num::digit_string::DigitString) -> (String, f64) {
+        self.0.format_decimal_and_value(i, d)
+    }
+    fn is_linking(&self, w: &str) -> bool {
+        self.0.is_linking(w)
     }
 }
 fn call_strategy() -> BoxedStrategy<Call> {
@@ -71,7 +112,7 @@ fn call_strategy() -> BoxedStrategy<Call> {
             (l, p)
         }),
     ];
-    (0u8..NFUNCS, text, threshold_strategy(), 0u8..4, lang_strategy()).prop_map(|(f, (lang, text), th_bits, cross, other)| Call { f, lang: if cross == 0 { other } else { lang }, text, th_bits }).boxed()
+    (0u8..NFUNCS, text, threshold_strategy(), 0u8..4, lang_strategy()).prop_map(|(f, (lang, text), th_bits, cross, other)| Call { f, native: lang.clone(), lang: if cross == 0 { other } else { lang }, text, th_bits }).boxed()
 }
 /// two (or three) almost identical long one-word numbers, validated back to back: same length and a long
 /// common prefix (what a memo keyed on a truncated or hashed form of the last word would confuse)
@@ -94,7 +135,7 @@ fn near_duplicates() -> BoxedStrategy<Vec<Call>> {
         let b = String::from_utf8(bytes).unwrap_or_else(|_| a.clone());
         let mut v = vec![];
         for t in [&a, &b, &a, &b] {
-            v.push(Call { f: if f == 0 { 1 } else { 0 }, lang: l.to_string(), text: t.clone(), th_bits: 0 });
+            v.push(Call { f: if f == 0 { 1 } else { 0 }, lang: l.to_string(), text: t.clone(), th_bits: 0, native: l.to_string() });
         }
         v
     }).boxed()
@@ -209,7 +250,7 @@ pub fn silent_workload(seed: u64, from: usize, to: usize) -> u64 {
     for (l, text) in items.iter().take(to.min(items.len())).skip(from) {
         for f in 0..NFUNCS {
             for th in [0.0f64, 10.0] {
-                let _ = perform(&langs[lang_index(l)], &Call { f, lang: l.clone(), text: text.clone(), th_bits: th.to_bits() });
+                let _ = perform(&langs[lang_index(l)], &Call { f, lang: l.clone(), text: text.clone(), th_bits: th.to_bits(), native: l.clone() });
                 n += 1;
             }
         }
@@ -475,6 +516,20 @@ impl Property for C14 {
     fn check(&self, h: &History, obs: &mut Obs) -> Result<(), String> {
         let shared: Vec<Language> = LANGS.iter().map(|l| new_lang(l)).collect();
         let mut fresh_cache: std::collections::HashMap<u64, String> = std::collections::HashMap::new();
+        // reference results first, each on a freshly built interpreter, in a fixed order: calls made in the text's
+        // own language, then calls in a foreign language, then the ones with a panicking user interpreter. State
+        // that the library keeps outside the interpreters (statics, thread-locals) and that the history's own
+        // order would disturb shows up as a difference with these.
+        let mut distinct: Vec<&Call> = vec![];
+        for c in h.iter() {
+            if !distinct.iter().any(|d| hash_of(*d) == hash_of(c)) {
+                distinct.push(c);
+            }
+        }
+        distinct.sort_by_key(|c| (c.f % NFUNCS == 10, !c.native.is_empty() && c.native != c.lang));
+        for c in distinct {
+            fresh_cache.insert(hash_of(c), perform(&new_lang(&c.lang), c));
+        }
         let mut langs = std::collections::BTreeSet::new();
         let mut seen: Vec<u64> = vec![];
         let mut revisit = false;
